@@ -92,7 +92,8 @@ def run(repo, rep, tier):
 EXPECT_KIND = {
     "on-error": ["OnError"],
     "define-slot": ["DefineSlot"],
-    "case": ["Define", "Condition", "Cancel"],
+    "case": lambda k: (k[:1] == ["Define"] and "Condition" in k and
+                       k[-1:] == ["Cancel"]),
     "condition": ["Condition"],
     "repeat": ["Repeat"],
     "switch": ["Cache"],
@@ -137,9 +138,11 @@ def _order(rep, func, steps, rest):
         pos[key] = i
         exp = EXPECT_KIND.get(key)
         if exp is not None:
-            rep.check(s["kinds"] == exp, "R01.1", site,
+            good = exp(s["kinds"]) if callable(exp) else s["kinds"] == exp
+            rep.check(good, "R01.1", site,
                       "statement '%s' is implemented by node kind %s" % (
-                          key, ">".join(exp)), construct="kind:" + key,
+                          key, "Define>Condition..Cancel" if callable(exp)
+                          else ">".join(exp)), construct="kind:" + key,
                       where=wh, detail="found %s" % s["kinds"])
             rep.check(applied_when_present(s), "R01.1", site,
                       "the '%s' wrapper is applied exactly when the statement "
